@@ -303,6 +303,7 @@ impl C19 {
         #[derive(Debug)]
         enum Exp {
             Prints(String),
+            PrintsLines(Vec<String>),
             Runtime(&'static str),
             Compile,
         }
@@ -341,6 +342,19 @@ impl C19 {
         cases.push((format!("{}..", lit), Exp::Compile));
         cases.push((format!("print({}.x);", lit), Exp::Runtime("AttributeError")));
         cases.push((format!("print(-{});", lit), Exp::Prints(crate::rv::num_display(-value))));
+        // the same literal written negated and plain in one piece of code (one constant table), in
+        // both orders, at top level and inside a function: each occurrence denotes its own text - also
+        // for the spelling of zero with the same shape, where the two values are equal as numbers
+        let zero_lit: String = lit.chars().map(|c| if c.is_ascii_digit() { '0' } else { c }).collect();
+        for (l, v) in [(lit.to_string(), value), (zero_lit, 0.0f64)] {
+            let (pos, neg) = (crate::rv::num_display(v), crate::rv::num_display(-v));
+            cases.push((format!("print(-{l}); print({l}); print(-{l});", l = l), Exp::PrintsLines(vec![neg.clone(), pos.clone(), neg.clone()])));
+            cases.push((format!("print({l}); print(-{l}); print({l});", l = l), Exp::PrintsLines(vec![pos.clone(), neg.clone(), pos.clone()])));
+            cases.push((
+                format!("fn f() {{ var a = -{l}; var b = {l}; return [a, b, -{l}, {l}]; }} print(f());", l = l),
+                Exp::PrintsLines(vec![format!("[{}, {}, {}, {}]", neg, pos, neg, pos)]),
+            ));
+        }
         // member names that would continue a numeric literal in other notations (exponents, radix and
         // type suffixes): after a digit string the `.` starts a member access all the same
         for m in ["e5", "E2", "e", "E", "e5x", "exp", "e0", "f", "d", "L", "x10", "b1", "o7", "_1", "inf", "nan", "e308", "E999"] {
@@ -356,6 +370,7 @@ impl C19 {
             let o = crate::yrun::run_source(src, &RunCfg::default());
             let ok = match (exp, &o.end) {
                 (Exp::Prints(t), End::Ok(_)) => o.out.len() == 1 && &o.out[0] == t,
+                (Exp::PrintsLines(t), End::Ok(_)) => &o.out == t,
                 (Exp::Runtime(k), End::Err(kind, m)) => crate::yrun::kind_name(*kind) == *k && !crate::diff::is_compile_error(m),
                 (Exp::Compile, End::Err(_, m)) => crate::diff::is_compile_error(m),
                 _ => false,
@@ -397,7 +412,7 @@ impl Property for C19 {
     }
 
     fn rule(&self) -> String {
-        "cases: (doubles) batches of up to 32 doubles from random bit patterns, subnormals, integers and millesimal fractions, handed to the program bit-exactly as globals through Vm::set_global; (boundaries, exhaustive) +-0, subnormal/normal limits, every power of two 2^-1074..2^1023 and of ten 1e-330..1e329 with both neighbours, 2^53 and 2^63 neighbours, infinities, NaNs; (literals_enum) every digit string d+ of <=6 digits and d+.d+ of <=5 digits (thorough: all 1 543 210; quick: 120 000 of them), (literals_random) digit strings up to 40 characters; (suffix) a literal followed by nothing, ';', '.len', '.len()', '.5', '..3', '.' identifier (including member names that look like exponents, radix prefixes and type suffixes: e5, E2, e-2, x10, f, L, inf, ...), '.' and '..' at end of input. Oracle: in-program round trip through String.from/interpolation and to_num (NaN via x != x, sign of zero via 1/x), the converted value read back bit-exactly with Vm::global, and independently an exact big-integer decimal oracle (harness/src/decimal.rs): the printed text must denote x and a literal's value must be a nearest double of its text; integral values print without a fraction. Non-trivial: not an integer below 2^53 / a literal with a fraction or more than 15 digits; distinct by the batch's bit patterns or texts.".into()
+        "cases: (doubles) batches of up to 32 doubles from random bit patterns, subnormals, integers and millesimal fractions, handed to the program bit-exactly as globals through Vm::set_global; (boundaries, exhaustive) +-0, subnormal/normal limits, every power of two 2^-1074..2^1023 and of ten 1e-330..1e329 with both neighbours, 2^53 and 2^63 neighbours, infinities, NaNs; (literals_enum) every digit string d+ of <=6 digits and d+.d+ of <=5 digits (thorough: all 1 543 210; quick: 120 000 of them), (literals_random) digit strings up to 40 characters; (suffix) a literal followed by nothing, ';', '.len', '.len()', '.5', '..3', '.' identifier (including member names that look like exponents, radix prefixes and type suffixes: e5, E2, e-2, x10, f, L, inf, ...), '.' and '..' at end of input, and the literal (and the zero of the same spelling) written negated and plain in one piece of code, in both orders, at top level and inside a function. Oracle: in-program round trip through String.from/interpolation and to_num (NaN via x != x, sign of zero via 1/x), the converted value read back bit-exactly with Vm::global, and independently an exact big-integer decimal oracle (harness/src/decimal.rs): the printed text must denote x and a literal's value must be a nearest double of its text; integral values print without a fraction. Non-trivial: not an integer below 2^53 / a literal with a fraction or more than 15 digits; distinct by the batch's bit patterns or texts.".into()
     }
 
     fn assumptions(&self) -> Vec<String> {
